@@ -3,6 +3,14 @@ import json, os
 VERIF = os.path.dirname(os.path.dirname(os.path.abspath(__file__)))
 
 CHECKS = {
+ 'C12': dict(
+   text='Theorems (Coq, axiom-free, all n, cutoff, multiple_of, draws r): the layers that run are exactly the prefix {0..k-1} with k = min(n, round_up(r+1, m)); cutoff < k <= n; m | k or k = n; '
+        'dropped layers form a suffix; every admissible k is produced by some in-contract draw; dropout is off when not training / indices supplied / dropout disabled / one layer. '
+        'Tie: the dropout arithmetic and guards of all four residual classes are regenerated from the source and proved equal to the model; the per-layer -1 pattern, zero losses and '
+        'output = decode(kept prefix) of 7 classes are compared with the model inside Coq; Python randrange is tabulated for all 10000 seeds x all (cutoff, n <= 12) and checked in Coq.',
+   note='random.Random(seed).randrange is an oracle (recorded, contract cutoff <= r < n); "every admissible k occurs for some seed" = theorem (every in-contract r gives k) + finite recorded table (every in-contract r is hit by a seed).',
+   technique='Coq proof (lia over Z, unbounded) + regenerated kernels/guards + exhaustive-in-r correspondence evaluated in Coq (vm_compute)',
+   ref='DESIGN.md section 4 C12'),
  'C04': dict(
    text='Theorems (Coq): the mixed-radix index codec of FSQ/LatentQuantize is a bijection for every level list and index (unbounded induction); '
         'the float32 round trip level->code->level of the repaired code is proved for every L in 2..128 by exhaustive vm_compute over a SpecFloat binary32 model '
